@@ -183,10 +183,43 @@ def run(ctx, rep: Report, deep: bool = False):
     for i in range(ctx.n(6, 60)):
         oracle_cdda(rep, [FN.random_name(rng, "nasty").replace('"', "").replace("\n", "") or None for _ in range(rng.randint(1, 4))])
         rep.feat("cdda_random_titles")
+    # whole AKAI images with sibling volumes of one name holding same-named samples (S103): one file per
+    # `Exported` line, every component inside the rules
+    import fam_akai as FA
+    import fam_e2e as E
+    import gen_akai as GA
+
+    for i in range(ctx.n(3, 20)):
+        nv = rng.randint(2, 3)
+        vols = []
+        for v in range(nv):
+            files = [GA.SampleFile(n, GA.random_words(rng, rng.randint(1, 30))) for n in rng.sample(["KICK", "SNARE", "HAT", "FX.1", "A"], rng.randint(1, 3))]
+            if rng.random() < 0.5:
+                files += [GA.SampleFile("PAD-L", GA.random_words(rng, 20)), GA.SampleFile("PAD-R", GA.random_words(rng, 20))]
+            vols.append(GA.Volume(rng.choice(["DRUMS", "DRUMS", "VOL.", "KEYS"]), files))
+        disc = GA.Disc([GA.Partition(vols, sectors=40), GA.Partition([GA.Volume("DRUMS", [GA.SampleFile("KICK", GA.random_words(rng, 5))])], sectors=10)])
+        img, _ = GA.serialize(disc, rng)
+        with E.Scratch() as sc:
+            pth = sc.write("x.img", img)
+            res, files, exported, err = FA.export_str(pth)
+        want = len(GA.expected_export(disc))
+        detail = {"volumes": [[v.name, [f.name for f in v.files]] for v in vols], "files": sorted(files)[:20], "exported_lines": len(exported), "error": err}
+        rep.evaluations += 1
+        rep.feat("akai_images_with_equal_directory_names")
+        if err:
+            rep.findings.append(Finding("akai-export-crash", detail))
+        elif not (len(files) == len(exported) == want):
+            rep.findings.append(Finding("akai-files-vs-exported-lines", dict(detail, on_disk=len(files), expected=want)))
+        else:
+            for path in files:
+                comps = path.split("/")
+                if not all(component_ok(c, k == len(comps) - 1) for k, c in enumerate(comps)):
+                    rep.findings.append(Finding("akai-path-component-unsafe", dict(detail, path=path)))
+                    break
     if ctx.model_available:
         compare_family(rep, "names", cases, nontrivial=lambda c: True, exhaustive=True)
     rep.exhaustive = True
-    rep.required_features = ["strings_exhaustive", "sibling_lists_exhaustive", "lists_with_duplicates", "cdda_hostile_titles", "directory_pipeline_with_pair"]
+    rep.required_features = ["strings_exhaustive", "sibling_lists_exhaustive", "lists_with_duplicates", "cdda_hostile_titles", "directory_pipeline_with_pair", "akai_images_with_equal_directory_names"]
 
 
 def search(ctx, rep: Report):
